@@ -130,6 +130,15 @@ func (g *Group[K, V]) Do(key K, fn func() (V, error)) (v V, err error, shared bo
 	return c.val, c.err, true
 }
 
+// forget unregisters the in-flight call for key, so that later callers start a
+// new call instead of joining this one. Callers already waiting still receive
+// its result.
+func (g *Group[K, V]) forget(key K) {
+	g.mu.Lock()
+	delete(g.m, key)
+	g.mu.Unlock()
+}
+
 // doCall handles the single call for a key.
 func (g *Group[K, V]) doCall(c *call[V], key K, fn func() (V, error)) {
 	normalReturn := false
